@@ -225,6 +225,36 @@ def one(ctx, rng, xr, ops, names):
             pass
         except Exception as e:
             rec.bad("dataset_accessor", key, {"op": name, "raised": repr(e)[:300]}, "dataset-accessor-raises")
+    # (4) the same Dataset object after in-place edits: the two accessors must still agree
+    edit = str(rng.choice(["coords_dir", "coords_freq", "setitem_dir", "efth_replaced"]))
+    if edit == "coords_dir":
+        ds.coords["dir"] = (ds["dir"] + 180.0) % 360.0
+    elif edit == "coords_freq":
+        ds.coords["freq"] = ds["freq"] * 1.25
+    elif edit == "setitem_dir":
+        ds["dir"] = (ds["dir"] + 90.0) % 360.0
+    else:
+        ds["efth"] = ds["efth"] * 2.0 + 0.001
+    x_now = ds["efth"]
+    for name in chosen:
+        op = ops[name]
+        if nf < op.min_nf or (op.kind == "parts" and "part" in lead):
+            continue
+        key = "%s|after:%s" % (name, edit)
+        try:
+            Rd = op.fn(_DsProxy(ds), aux)
+            Ra = op.fn(x_now, aux)
+            Rd = Rd.compute() if hasattr(Rd, "compute") else Rd
+            Ra = Ra.compute() if hasattr(Ra, "compute") else Ra
+            same = Rd.identical(Ra) if hasattr(Rd, "identical") else all(a.identical(b) for a, b in zip(Rd, Ra))
+            if same:
+                rec.ok("dataset_accessor_after_edit", key)
+            else:
+                rec.bad("dataset_accessor_after_edit", key, {"op": name, "edit": edit}, "dataset-accessor-differs")
+        except _NotOnDataset:
+            pass
+        except Exception as e:
+            rec.skip(name, "call after in-place edit raised %s" % type(e).__name__)
 
 
 class _NotOnDataset(Exception):
